@@ -1,4 +1,6 @@
 import Stackage.Model.Ops
+import Stackage.Model.LogLevel
+import Stackage.Gen.Opts
 
 /-! # Option bits and scalar settings (C18), following `setState`, `nodeConfig.setOpt` & co. -/
 
@@ -24,11 +26,169 @@ def setState (c : Cfg) (f : Nat) (st : Option Bool) : Cfg :=
 /-- `stack.setFIFO` behind the read-only guard -/
 def setFIFO (c : Cfg) (b : Bool) : Cfg :=
   if c.positive Gen.flag_ronly then c else if !c.fifo then { c with fifo := b } else c
+
+/-! ## C18: every other setting. All functions describe a call on an *initialised* instance
+(`IsInit()` true); the Stack and the Condition methods run the same `nodeConfig` code, what differs is
+which methods each type offers (`OptCall.onCond`). -/
+
+/-- `getState(ronly)` -/
+def readOnly (c : Cfg) : Bool := c.positive Gen.flag_ronly
+
+/-- the `if !r.getState(ronly) { … }` wrapper every setter but `SetReadOnly` sits in -/
+def guarded (c : Cfg) (f : Cfg → Cfg) : Cfg := if c.readOnly then c else f c
+
+/-- ASCII lower-casing; `strings.ToLower` agrees with it on whether the result is `_random` / `_addr`
+(no non-ASCII code point lower-cases to one of the letters a d m n o r) -/
+def lcA (s : Text) : Text := s.map (fun c => if 'A' ≤ c ∧ c ≤ 'Z' then Char.ofNat (c.toNat + 32) else c)
+
+/-- `SetID` replaces these two words (any case) by a generated string -/
+def isMagicID (id : Text) : Bool := lcA id == "_random".toList || lcA id == "_addr".toList
+
+/-- `Stack.SetID` / `Condition.SetID`; `gen` is the string the library generates (random / address)
+when the magic words are used -/
+def SetID (c : Cfg) (id : Text) (gen : Text := []) : Cfg :=
+  c.guarded fun c => { c with id := if isMagicID id then gen else id }
+
+/-- `SetCategory` -/
+def SetCategory (c : Cfg) (cat : Text) : Cfg := c.guarded fun c => { c with cat := cat }
+
+/-- Go `string(rune)`: invalid code points become U+FFFD -/
+def runeStr (r : Int) : Text :=
+  if (0 ≤ r ∧ r < 0xD800) ∨ (0xE000 ≤ r ∧ r ≤ 0x10FFFF) then [Char.ofNat r.toNat] else [Char.ofNat 0xFFFD]
+
+/-- a `string`-or-`rune` argument passed as `any` -/
+inductive StrArg where
+  | str (s : Text)
+  | rune (r : Int)
+  | nil
+  | other            -- any other dynamic type
+  deriving DecidableEq, Repr, Inhabited
+
+/-- `assertListDelimiter` -/
+def assertListDelimiter : StrArg → Text
+  | .str s => s
+  | .rune r => if r ≠ 0 then runeStr r else []
+  | _ => []
+
+/-- `Stack.SetDelimiter` (→ `nodeConfig.setListDelimiter`): only a LIST keeps a delimiter -/
+def SetDelimiter (c : Cfg) (x : StrArg) : Cfg :=
+  c.guarded fun c => if c.kind = Gen.kind_list then { c with ljc := assertListDelimiter x } else c
+
+/-- the string `stack.setSymbol` concatenates from its arguments -/
+def symbolOf : List StrArg → Text
+  | [] => []
+  | .str s :: rest => s ++ symbolOf rest
+  | .rune r :: rest => runeStr r ++ symbolOf rest
+  | _ :: rest => symbolOf rest
+
+/-- `Stack.SetSymbol`: ignored by a LIST -/
+def SetSymbol (c : Cfg) (xs : List StrArg) : Cfg :=
+  c.guarded fun c => if c.kind ≠ Gen.kind_list then { c with sym := symbolOf xs } else c
+
+/-- one variadic argument of `SetEncap` -/
+inductive EncArg where
+  | str (s : Text)
+  | slice (xs : List Text)
+  | other
+  deriving DecidableEq, Repr, Inhabited
+
+/-- `strInSlice` over every stored group: is the string already used for encapsulation? -/
+def encInUse (enc : List (List Text)) (s : Text) : Bool := enc.any (fun g => g.contains s)
+
+/-- `nodeConfig.setStringSliceEncap` (One / Two). An empty slice is ignored (repair F21; the
+unrepaired code indexes `x[0]` as soon as a group is stored, and stores the empty group otherwise).
+A slice longer than two is stored whole after looking at its first two strings only. -/
+def encSlice (enc : List (List Text)) (x : List Text) : List (List Text) :=
+  match x with
+  | [] => enc
+  | [a] => if encInUse enc a then enc else enc ++ [x]
+  | a :: b :: _ => if encInUse enc a || encInUse enc b then enc else enc ++ [x]
+
+def encStep (enc : List (List Text)) : EncArg → List (List Text)
+  | .str s => encSlice enc [s]
+  | .slice xs => encSlice enc xs
+  | .other => enc
+
+/-- `SetEncap`: no argument resets, otherwise the arguments are offered in order -/
+def SetEncap (c : Cfg) (xs : List EncArg) : Cfg :=
+  c.guarded fun c => if xs.isEmpty then { c with enc := [] } else { c with enc := xs.foldl encStep c.enc }
+
+/-- `SetAuxiliary(aux...)`: `none` = no argument, `some none` = a nil map, `some (some id)` = the map with
+that identity. Identity 0 stands for "a freshly allocated empty map". -/
+def SetAuxiliary (c : Cfg) (a : Option (Option Nat)) : Cfg :=
+  c.guarded fun c => { c with aux := match a with | some (some id) => some id | _ => some 0 }
+
+def SetLogLevel (c : Cfg) (xs : List LogLevel.Arg) : Cfg := c.guarded fun c => { c with lvl := LogLevel.shift c.lvl xs }
+def UnsetLogLevel (c : Cfg) (xs : List LogLevel.Arg) : Cfg := c.guarded fun c => { c with lvl := LogLevel.unshift c.lvl xs }
+
+/-! getters -/
+def IsParen (c : Cfg) : Bool := c.positive Gen.flag_parens
+def IsPadded (c : Cfg) : Bool := !c.positive Gen.flag_nspad
+def IsReadOnly (c : Cfg) : Bool := c.positive Gen.flag_ronly
+def CanNest (c : Cfg) : Bool := !c.positive Gen.flag_nnest
+def IsEncap (c : Cfg) : Bool := c.enc.length > 0
+/-- `Stack.IsFIFO` (a Condition answers for the Stack it holds as expression, see `Cfg.condIsFIFO`) -/
+def IsFIFO (c : Cfg) : Bool := c.fifo
+def ID (c : Cfg) : Text := c.id
+def Category (c : Cfg) : Text := c.cat
+def Delimiter (c : Cfg) : Text := c.ljc
+def Auxiliary (c : Cfg) : Option Nat := c.aux
+def LogLevels (c : Cfg) : Text := LogLevel.string c.lvl
+
+/-- `Condition.IsFIFO`: the ordering of a Stack held as expression value, else false -/
+def condIsFIFO (ex : Val) : Bool :=
+  match ex with
+  | .stk _ c _ => c.fifo
+  | _ => false
 end Cfg
+
+/-- the option/setting calls C18 speaks about -/
+inductive OptCall where
+  | state (f : Nat) (st : Option Bool)     -- a tri-state setter for flag `f`: true / false / no argument
+  | fifo (b : Bool)
+  | id (s : Text) (gen : Text)
+  | cat (s : Text)
+  | delim (x : Cfg.StrArg)
+  | sym (xs : List Cfg.StrArg)
+  | enc (xs : List Cfg.EncArg)
+  | aux (a : Option (Option Nat))
+  | lvlSet (xs : List LogLevel.Arg)
+  | lvlUnset (xs : List LogLevel.Arg)
+  deriving Repr, Inhabited
+
+/-- the flags a Stack / a Condition has a tri-state setter for -/
+def stackOptFlags : List Nat :=
+  [Gen.flag_parens, Gen.flag_cfold, Gen.flag_nspad, Gen.flag_lonce, Gen.flag_negidx, Gen.flag_fwdidx, Gen.flag_nnest, Gen.flag_ronly]
+def condOptFlags : List Nat := [Gen.flag_parens, Gen.flag_nspad, Gen.flag_nnest, Gen.flag_ronly]
+
+/-- does `Condition` offer the call? (no FIFO, delimiter or symbol; four of the eight options) -/
+def OptCall.onCond : OptCall → Bool
+  | .state f _ => condOptFlags.contains f
+  | .fifo _ | .delim _ | .sym _ => false
+  | _ => true
+
+/-- does `Stack` offer the call? -/
+def OptCall.onStack : OptCall → Bool
+  | .state f _ => stackOptFlags.contains f
+  | _ => true
+
+def Cfg.call (c : Cfg) : OptCall → Cfg
+  | .state f st => c.setState f st
+  | .fifo b => c.setFIFO b
+  | .id s g => c.SetID s g
+  | .cat s => c.SetCategory s
+  | .delim x => c.SetDelimiter x
+  | .sym xs => c.SetSymbol xs
+  | .enc xs => c.SetEncap xs
+  | .aux a => c.SetAuxiliary a
+  | .lvlSet xs => c.SetLogLevel xs
+  | .lvlUnset xs => c.UnsetLogLevel xs
 
 namespace Stk
 def setState (s : Stk) (f : Nat) (st : Option Bool) : Stk := { s with cfg := s.cfg.setState f st }
 def setFIFO (s : Stk) (b : Bool) : Stk := { s with cfg := s.cfg.setFIFO b }
+/-- any C18 call on a Stack: only the configuration slot is touched -/
+def call (s : Stk) (o : OptCall) : Stk := { s with cfg := s.cfg.call o }
 
 /-- `Stack.CanNest`: would a nested Stack currently be accepted? -/
 def CanNest (s : Stk) : Bool := !s.flag Gen.flag_nnest
